@@ -72,11 +72,13 @@ func (d *demux) isClosed() bool {
 }
 
 func (d *demux) Chain(filter framesFilter) *demux {
-	if d.isClosed() {
-		panic("demux closed")
-	}
 	next := newDemux()
 	filtered, cancel := d.Frames(0, filter)
+	if filtered == nil {
+		// d is closed (e.g. the TNC connection was lost): the chained demux is closed too.
+		next.Close()
+		return next
+	}
 	go func() {
 		defer cancel()
 		defer next.Close()
